@@ -262,7 +262,9 @@ def oracle_roundtrip(ck, ses, case, doc, strict):
                 why = 'decoded value differs from the original'
             if why is None:
                 re_enc = ses.real_encode(validator, back, via_string=via_string)
-                if re_enc[0] != 'ok' or canon(re_enc[1]) != canon(doc):
+                # "the same JSON again": compared as parsed JSON - an integer given for a Float member is written as
+                # 3 the first time and as 3.0 after the decoder stored a float, which is the same JSON number
+                if re_enc[0] != 'ok' or not json_equiv(re_enc[1], doc):
                     why = 're-encoding differs'
         if why:
             shape = 'nullable-all-optional-struct-member-empty' if ses.ambiguous.get(id(obj)) else shape_sig(ses, ir, stored)
